@@ -110,8 +110,7 @@ PrintNode(n) ==
     IN IF n.name # ""
        THEN "<" \o n.name \o PrintAttrs(n.attrs)
             \o (IF n.sc /\ n.kids = <<>> /\ ~valTruthy THEN SelfCloseToken \o ">" ELSE ">" \o body \o "</" \o n.name \o ">")
-       ELSE IF ff # 0 \/ valTruthy THEN body         \* a text node
-       ELSE ""                                        \* a node without name, attributes and text prints nothing (its children neither)
+       ELSE body                                      \* a text node: its text (if any), then its children
 Printed == PrintNodes(Transformed)
 
 (* --------------------------------- the HAML / Pug / Slim formatter (indent_format.py) *)
@@ -209,7 +208,7 @@ PrintNodeF(n, base, cm) ==
          ELSE LET bd == BodyF(n, at.f, cm)
                   co == IF cm THEN CommentF(n, bd.f) ELSE [s |-> "", f |-> bd.f]
               IN [s |-> "<" \o n.name \o at.s \o ">" \o bd.s \o "</" \o n.name \o ">" \o co.s, f |-> co.f]
-    ELSE IF valTruthy THEN BodyF(n, base, cm) ELSE [s |-> "", f |-> base]
+    ELSE BodyF(n, base, cm)
 PrintedF == PrintNodesF(Transformed, 1, FALSE).s
 PrintedFC == PrintNodesF(Transformed, 1, TRUE).s           \* with comment.enabled (layout of the comment not modelled: only its tabstops matter here)
 
